@@ -221,9 +221,16 @@ def replay(sub, chunk):
                     # the working tree (dirstate) broke down, not the commit builder: fresh tree in the pre-state, once more
                     sub.cov["wt_rebuilds"] = sub.cov.get("wt_rebuilds", 0) + 1
                     sub.cov.setdefault("_collect", []).append({"wt_rebuild": "%s: %s" % (type(ex).__name__, str(ex)[:160]), "calls": list(calls), "format": fmt})
-                    fx.rebuild(s["b"], prev)
-                    do_step(st)
+                    try:
+                        fx.rebuild(s["b"], prev)
+                        do_step(st)
+                    except Exception as ex2:  # noqa  not replayable at all: no history to judge
+                        sub.drift("behaviour cannot be replayed (%s: %s)" % (type(ex2).__name__, str(ex2)[:100]), {"format": fmt, "calls": calls})
+                        calls = None
+                        break
                 prev = st
+            if calls is None:
+                continue
             last = beh[-1][1]
             n = len(last["P"])
             repo = _r.Repository.open(fx.repo_url)
@@ -299,13 +306,19 @@ def run(ctx):
     ncover = len(paths)
     sims, res = tlc.simulate(ctx, "PerFileGraphMC", cfg_text=cfg(["f", "g"], 5 if q else 6, 2, False), num=160 if q else 1200,
                              depth=16 if q else 20, seed=ctx.seed + 1, label="simulate 2 files", timeout=3000)
+    if not sims:
+        ctx.machinery("TLC -simulate produced no behaviour: %s" % res.get("output", "")[-800:])
     behs += [beh_to_py(b) for b in sims]
     sims, res = tlc.simulate(ctx, "PerFileGraphMC", cfg_text=cfg(["f"], 5 if q else 6, 2, True), num=40 if q else 300, depth=20, seed=ctx.seed + 2,
                              label="simulate 1 file with remove / re-add", timeout=3000)
+    if not sims:
+        ctx.machinery("TLC -simulate produced no behaviour: %s" % res.get("output", "")[-800:])
     behs += [beh_to_py(b) for b in sims]
     if not q:
         sims, res = tlc.simulate(ctx, "PerFileGraphMC", cfg_text=cfg(["f"], 6, 1, False), num=300, depth=18, seed=ctx.seed + 3,
                                  label="simulate 1 file, 6 revisions", timeout=3000)
+        if not sims:
+            ctx.machinery("TLC -simulate produced no behaviour: %s" % res.get("output", "")[-800:])
         behs += [beh_to_py(b) for b in sims]
     behs = [(k < ncover, b) for k, b in enumerate(behs) if len(b[-1][1]["P"]) > 1]
     if not behs:
